@@ -14,11 +14,11 @@ import (
 	"strings"
 	"sync"
 
+	ociv1 "github.com/google/go-containerregistry/pkg/v1"
 	"github.com/google/go-containerregistry/pkg/v1/empty"
 	"github.com/google/go-containerregistry/pkg/v1/mutate"
 	"github.com/google/go-containerregistry/pkg/v1/partial"
 	"github.com/google/go-containerregistry/pkg/v1/tarball"
-	ociv1 "github.com/google/go-containerregistry/pkg/v1"
 	ocitypes "github.com/google/go-containerregistry/pkg/v1/types"
 	"github.com/spf13/afero"
 
@@ -51,6 +51,7 @@ type Spec struct {
 	Deps       []Dep
 	Form       string // annotated | plain | multi
 	Built      bool   // produced by the repo's xpkg builder (only valid packages)
+	Bulk       int    // KiB of YAML comments padding the stream (a large package: several cache writes)
 }
 
 // Key is a canonical string for the spec.
@@ -63,7 +64,7 @@ func (s Spec) Key() string {
 	for _, d := range s.Deps {
 		ds = append(ds, d.Kind+"="+d.Repo+d.Constraint)
 	}
-	return fmt.Sprintf("%v|%s|%v|%s|%v|%s|%v", s.MetaKinds, s.MetaName, os, s.Crossplane, ds, s.Form, s.Built)
+	return fmt.Sprintf("%v|%s|%v|%s|%v|%s|%v|%d", s.MetaKinds, s.MetaName, os, s.Crossplane, ds, s.Form, s.Built, s.Bulk)
 }
 
 // ObjectID is the identity (kind/name) the object has in the cluster.
@@ -202,7 +203,20 @@ func (s Spec) Stream() string {
 	for _, o := range s.Objects {
 		docs = append(docs, o.yaml())
 	}
-	return strings.Join(docs, "---\n")
+	out := strings.Join(docs, "---\n")
+	if s.Bulk > 0 {
+		// comment lines of pseudo-random text at the end of the last document
+		var b strings.Builder
+		x := uint64(0x9e3779b97f4a7c15)
+		for b.Len() < s.Bulk*1024 {
+			x ^= x << 13
+			x ^= x >> 7
+			x ^= x << 17
+			fmt.Fprintf(&b, "# %016x%016x\n", x, x*0x2545f4914f6cdd1d)
+		}
+		out += b.String()
+	}
+	return out
 }
 
 // ObjectKeys returns the sorted "Kind/name" identities of the package objects.
@@ -250,7 +264,20 @@ type wire struct {
 	img      ociv1.Image
 	manifest []byte
 	config   []byte
+	blobs    map[ociv1.Hash]*blob
 }
+
+// blob is a layer as a registry holds it: compressed bytes.
+type blob struct {
+	digest ociv1.Hash
+	mt     ocitypes.MediaType
+	data   []byte
+}
+
+func (b *blob) Digest() (ociv1.Hash, error)            { return b.digest, nil }
+func (b *blob) Compressed() (io.ReadCloser, error)     { return io.NopCloser(bytes.NewReader(b.data)), nil }
+func (b *blob) Size() (int64, error)                   { return int64(len(b.data)), nil }
+func (b *blob) MediaType() (ocitypes.MediaType, error) { return b.mt, nil }
 
 func (w *wire) RawManifest() ([]byte, error)   { return w.manifest, nil }
 func (w *wire) RawConfigFile() ([]byte, error) { return w.config, nil }
@@ -258,7 +285,10 @@ func (w *wire) MediaType() (ocitypes.MediaType, error) {
 	return w.img.MediaType()
 }
 func (w *wire) LayerByDigest(h ociv1.Hash) (partial.CompressedLayer, error) {
-	return w.img.LayerByDigest(h)
+	if b, ok := w.blobs[h]; ok {
+		return b, nil
+	}
+	return nil, fmt.Errorf("no layer %s", h)
 }
 
 // Image builds (once per distinct spec and process) the image for a spec.
@@ -289,7 +319,33 @@ func Image(s Spec) (ociv1.Image, error) {
 	if err != nil {
 		return nil, err
 	}
-	nimg, err := partial.CompressedToImage(&wire{img: img, manifest: m, config: c})
+	// layers as stored blobs (no on-the-fly compression when they are read)
+	blobs := map[ociv1.Hash]*blob{}
+	ls, err := img.Layers()
+	if err != nil {
+		return nil, err
+	}
+	for _, l := range ls {
+		d, err := l.Digest()
+		if err != nil {
+			return nil, err
+		}
+		mt, err := l.MediaType()
+		if err != nil {
+			return nil, err
+		}
+		rc, err := l.Compressed()
+		if err != nil {
+			return nil, err
+		}
+		data, err := io.ReadAll(rc)
+		_ = rc.Close()
+		if err != nil {
+			return nil, err
+		}
+		blobs[d] = &blob{digest: d, mt: mt, data: data}
+	}
+	nimg, err := partial.CompressedToImage(&wire{img: img, manifest: m, config: c, blobs: blobs})
 	if err != nil {
 		return nil, err
 	}
